@@ -256,13 +256,16 @@ def sweep(ctx, rng, budget, report, focus=None):
                 todo.append((size, where, previous, rules))
     ctx.count("dyn.schedules_total", len(todo))
     # schedules that are always run, whatever the budget: one per distinct decision of add_file (first pass cut to content the group already
-    # stores; content replaced between the passes; second pass cut short; shrink-then-grow inside the second pass)
+    # stores; content replaced between the passes; second pass cut short - also to exactly the content an earlier item stored; shrink-then-grow inside
+    # the second pass)
     must = []
     for size in (20000, 70000):
         for where in ("nested", "top"):
             counts = reference_counts(ctx, rng, size, where, None)
             pp = max(1, counts["read"] // 2)
             for rules in ([("open", 1, "replace", size + 4000)], [("read", 1, "truncate", size // 2)], [("read", pp + 1, "rewrite", size)], [("read", pp + 2, "truncate", size // 3)],
+                          # the second pass delivers exactly the first half: content an earlier item of the same run has already stored
+                          [("read", pp + 1, "truncate", size // 2)],
                           [("read", pp + 1, "truncate", 0), ("read", pp + 2, "regrow", 2 * size)]):
                 if focus is None or focus(size, where, None, rules):
                     must.append((size, where, None, rules))
